@@ -1,8 +1,73 @@
 """Extra work of the thorough tier: compile-fail/compile-pass witnesses and the checker self-test."""
+import os
+import re
+import shutil
+import subprocess
+import time
+
+from . import core, extract
+
+VERIF = core.VERIF
+WITNESS_PROPS = {'C07': 'c07', 'C16': 'c16', 'C17': 'c17', 'C19': 'c19'}
+
+
+class WitnessViolation:
+    def __init__(self, pid, name, line, kind, out):
+        self.rule = 'WITNESS'
+        self.instance = name
+        self.status = 'violation'
+        self.fn = 'witness/src/lib.rs'
+        self.file = 'witness/src/lib.rs'
+        self.line = line
+        self.kind = kind
+        self.msg = ('type-level witness %s (%s) no longer holds: %s' % (
+            name, kind, 'the program that must be rejected now compiles' if kind == 'compile fail' else 'the twin that must compile is rejected'))
+        self.details = {'output': out[-1500:]}
+        self.props = [pid]
+        self.nontrivial = True
+
+    @property
+    def key(self):
+        return 'WITNESS:%s:%s' % (self.instance, self.kind.replace(' ', '-'))
+
+    def to_json(self):
+        return {'rule': self.rule, 'instance': self.instance, 'status': self.status, 'function': self.fn,
+                'where': '%s:%s' % (self.file, self.line), 'message': self.msg, 'details': self.details, 'key': self.key}
+
+
+def run_witnesses(pid):
+    mod = WITNESS_PROPS.get(pid)
+    if mod is None:
+        return {}
+    wdir = os.path.join(VERIF, 'witness')
+    shutil.copy(os.path.join(extract.REPO, 'Cargo.lock'), os.path.join(wdir, 'Cargo.lock'))
+    env = dict(os.environ)
+    env['CARGO_NET_OFFLINE'] = 'true'
+    env['CARGO_TARGET_DIR'] = os.path.join(extract.CACHE, 'target-witness')
+    env.pop('RUSTC_WORKSPACE_WRAPPER', None)
+    env.pop('RUSTFLAGS', None)
+    t0 = time.time()
+    r = subprocess.run(['cargo', '+nightly', 'test', '--doc', '--offline', '--', mod + '::'], cwd=wdir, env=env, capture_output=True, text=True)
+    out = r.stdout + r.stderr
+    tests = re.findall(r'^test src/lib\.rs - (\S+) \(line (\d+)\)( - compile fail| - compile)? \.\.\. (ok|FAILED)', out, re.M)
+    res = {'witnesses': len(tests), 'witnesses_ok': sum(1 for t in tests if t[3] == 'ok'), 'witness_wall_s': round(time.time() - t0, 1),
+           'witness_names': sorted(set(t[0] for t in tests))}
+    viol = []
+    for name, line, kind, st in tests:
+        if st != 'ok':
+            viol.append(WitnessViolation(pid, name, int(line), (kind or ' - compile').replace(' - ', ''), out))
+    if not tests:
+        res['witness_error'] = out[-800:]
+    res['witness_violations'] = viol
+    return res
 
 
 def run(pid):
     out = {}
+    try:
+        out.update(run_witnesses(pid))
+    except Exception as e:
+        out['witness_error'] = repr(e)
     try:
         from . import selftest
         res, dt = selftest.run_all(props=[pid])
